@@ -58,6 +58,14 @@ pub fn rewrite_item(item: &mut Item, unit: &Unit, log: &mut Log, lifted: &mut Ve
             let tname = crate_type_name(&im.self_ty);
             apply_generic_subst_generics(&mut im.generics, unit);
             subst_generics_type(&mut im.self_ty, unit);
+            // R14: impl of a generic struct instantiated at its reference form: `impl<'a> X<'a>`
+            let il: Vec<String> = unit.opts.get("impl_lifetime").and_then(|v| v.as_array()).map(|a| a.iter().filter_map(|x| x.as_str().map(|s| s.to_string())).collect()).unwrap_or_default();
+            let tn2 = crate_type_name(&im.self_ty);
+            if il.iter().any(|n| *n == tn2) {
+                let id = ident(&tn2);
+                im.generics = parse_quote!(<'a>);
+                im.self_ty = Box::new(parse_quote!(#id<'a>));
+            }
             for it in im.items.iter_mut() {
                 if let ImplItem::Fn(f) = it {
                     clean_attrs(&mut f.attrs, false, log, &f.sig.ident.to_string());
